@@ -187,6 +187,23 @@ def run_topology(t):
         order = sorted(order, key=lambda i: (not isinstance(todo[i][1], fm.Input), i))
     for i in order:
         link(*todo[i])
+    if t.get("refused"):
+        # history: link requests that the library refuses (the input already has a source) are made again before connect; a refused
+        # request creates no link and must not change the verdict or the reported links
+        sinks = [(a, b) for a, b in todo if isinstance(b, fm.Input)]
+        for a, b in sinks if t["refused"] == "dup_all" else sinks[-1:]:
+            for _ in range(2 if t["refused"] == "dup_twice" else 1):
+                try:
+                    a >> b
+                    edges[(rep(a), rep(b))] += 1
+                except ValueError:
+                    CALLS["refused_links"] += 1
+        if t["refused"] == "other_source":
+            try:
+                prod.outputs["o"] >> c1.inputs["i"]
+                edges[(rep(prod.outputs["o"]), rep(c1.inputs["i"]))] += 1
+            except ValueError:
+                CALLS["refused_links"] += 1
     want = predicate(t)
     bad = []
     outcome = "ok"
@@ -202,6 +219,11 @@ def run_topology(t):
         if t["retry"] == "repair" and t["extra"]:
             link(prod.outputs["o"], c1.inputs["x"])
             want = predicate(dict(t, extra=False))
+        elif t["retry"].startswith("repair_via:") and t["extra"]:
+            # the missing link is created through a new adapter (an adapter the first, refused connect has never seen)
+            a = t["retry"].split(":")[1]
+            link(link(prod.outputs["o"], AD[a]()), c1.inputs["x"])
+            want = predicate(dict(t, extra=False, ch3=[a]))
         CALLS.clear()
         outcome = "ok"
         try:
@@ -299,7 +321,7 @@ def topologies(tier):
     for src in ("push", "static", "pull"):
         for ch1 in [c for c in chains if len(c) <= 2]:
             for s1 in ("pull", "static", "cb"):
-                for retry in ("same", "repair"):
+                for retry in ["same", "repair"] + ["repair_via:" + k for k in kinds]:
                     out.append(dict(src=src, ch1=ch1, s1=s1, fan=None, ch2=[], s2="pull", listing="all", extra=True, retry=retry))
                 out.append(dict(src=src, ch1=ch1, s1=s1, fan=None, ch2=[], s2="pull", listing="no_producer", extra=False, retry="same"))
     # three consumers: a fan-out behind one branch of the output and a third consumer on a branch of its own, links created in several orders
@@ -309,7 +331,14 @@ def topologies(tier):
             for ch3 in short:
                 for lo in ("id", "rev", "third_first", "sinks_first"):
                     out.append(dict(src=src, ch1=ch1, s1="pull", fan=len(ch1), ch2=[], s2="pull", listing="all", extra=False, ch3=ch3, lorder=lo))
-    for t0 in [x for x in out if x["fan"] is not None and x.get("ch3") is None and x["listing"] == "all" and len(x["ch1"]) <= 1][:: (3 if q else 1)]:
+    # histories: link requests that are refused (made a second time / from another source) before connect
+    base = [x for x in out if not x.get("retry") and x.get("ch3") is None and x["listing"] == "all" and not x["extra"] and len(x["ch1"]) <= 2 and len(x["ch1"]) == len(set(x["ch1"]))]
+    for t0 in base[:: (2 if q else 1)]:
+        for rf in ("dup_last", "dup_all", "dup_twice", "other_source"):
+            if rf == "dup_all" and t0["fan"] is None:
+                continue
+            out.append(dict(t0, refused=rf))
+    for t0 in [x for x in out if x["fan"] is not None and x.get("ch3") is None and not x.get("refused") and x["listing"] == "all" and len(x["ch1"]) <= 1][:: (3 if q else 1)]:
         out.append(dict(t0, lorder="rev"))
         out.append(dict(t0, lorder="sinks_first"))
     return out
